@@ -66,6 +66,11 @@ def worker_setup():
     if SNum not in A.FLOAT_TYPES:
         A.FLOAT_TYPES = tuple(A.FLOAT_TYPES) + (SNum, SInt)
     stubs.append('cirq_google.serialization.arg_func_langs.FLOAT_TYPES extended by the symbolic real / integer classes (a symbolic real stands for the float, a symbolic integer for the int the caller would pass)')
+    from cirq.circuits import circuit_operation as CO
+
+    if SInt not in CO.INT_CLASSES:
+        CO.INT_CLASSES = tuple(CO.INT_CLASSES) + (SInt,)
+    stubs.append('cirq.circuits.circuit_operation.INT_CLASSES extended by the symbolic integer class (symbolic repetition counts)')
     return stubs
 
 
@@ -344,7 +349,7 @@ def obligations(tier):
 
     obs.append(
         Obligation(
-            'msgs.finding.condition.bitmask_beyond_24_bits',
+            'msgs.finding.bitmask_beyond_24_bits',
             body_cond_bitmask_big,
             twin=lambda cx: body_cond_bitmask_big(cx, wrong=True),
             points=[{'target': 1, 'bitmask': 3}],
@@ -888,7 +893,7 @@ def obligations(tier):
             nq = NQ[name](v) if name in NQ else nq0
             c = cirq.Circuit(gate.on(*qubits_of(qk, nq)))
             back = roundtrip(cx, c)
-            k = Cmp(cx, TOL)
+            k = Cmp(cx, TOL, strict_exponents=True)  # one operation: nothing is merged, the exponent itself must come back
             k.circuit(back, c, name)
             k.finish(name, wrong)
 
@@ -957,6 +962,459 @@ def obligations(tier):
             twin=lambda cx: body_plain(cx, wrong=True),
             points=[{'choose:qubits': i % 3, 'choose:op': i} for i in range(N_PLAIN)],
             desc=f'solver-driven BOUNDED exploration (finite selectors only): one-operation circuits over the parameter-free vocabulary {[n for n, _ in plain_ops(qubits_of("grid", 2))]} on three qubit kinds round-trip to an equal circuit (field-wise and by cirq equality)',
+        )
+    )
+
+    # ---- symbol-valued gate arguments --------------------------------------------------------------------------
+    SYM_GATES = [
+        ('X**e', 1, lambda e1, e2: cirq.XPowGate(exponent=e1)),
+        ('Z**e', 1, lambda e1, e2: cirq.ZPowGate(exponent=e1)),
+        ('PhasedXPow(e1,e2)', 1, lambda e1, e2: cirq.PhasedXPowGate(exponent=e1, phase_exponent=e2)),
+        ('PhasedXZ(e1,e2,a)', 1, lambda e1, e2: cirq.PhasedXZGate(x_exponent=e1, z_exponent=e2, axis_phase_exponent=a)),
+        ('FSim(e1,e2)', 2, lambda e1, e2: cirq.FSimGate(theta=e1, phi=e2)),
+        ('CZ**e', 2, lambda e1, e2: cirq.CZPowGate(exponent=e1)),
+        ('ISWAP**e', 2, lambda e1, e2: cirq.ISwapPowGate(exponent=e1)),
+        ('H**e', 1, lambda e1, e2: cirq.HPowGate(exponent=e1)),
+    ]
+    SYM_EXPRS = [e for n, e in EXPRS if n in ('a', 'a+b', '2*a', '0.5*a+0.25', '0.1*a+1/3', 'a*b*c+a', 'a**2', '-a', 'a-b')]
+
+    def body_symbols(cx, wrong=False):
+        gname, nq, build = SYM_GATES[cx.choose('gate', len(SYM_GATES))]
+        i1 = cx.choose('e1', len(SYM_EXPRS))
+        e1 = SYM_EXPRS[i1]
+        e2 = SYM_EXPRS[(2 * i1 + 1) % len(SYM_EXPRS)]
+        c = cirq.Circuit(build(e1, e2).on(*qubits_of('grid', nq)))
+        back = roundtrip(cx, c)
+        k = Cmp(cx, TOL, expr_tol=1e-5)
+        k.circuit(back, c, gname)
+        if wrong:
+            k.exprs.append((k.symval('a'), k.symval('a') + 0.01, 'twin'))
+        k.finish(gname)
+
+    obs.append(
+        Obligation(
+            'msgs.circuit.symbolic_args',
+            body_symbols,
+            twin=lambda cx: body_symbols(cx, wrong=True),
+            points=[{'choose:gate': i % len(SYM_GATES), 'choose:e1': i % len(SYM_EXPRS), 'sym_a': 0.3, 'sym_b': -0.8, 'sym_c': 1.1} for i in range(len(SYM_GATES) * 2)],
+            opts={'weight': 3},
+            desc=f'gates {[g for g, _, _ in SYM_GATES]} whose arguments are sympy formulas from {[str(e) for e in SYM_EXPRS]}: the deserialized gate has the same family and arguments that are the same FUNCTION of the symbols (both formulas evaluated at SYMBOLIC values of a, b, c)',
+        )
+    )
+
+    # ---- tags -----------------------------------------------------------------------------------------------------
+    def tag_menu(cx, y, n):
+        q0, q1 = qubits_of('grid', 2)
+        x = cx.real('x', -BOX, BOX)
+        itag = cg.InternalTag('CustomTag', 'internal.pkg', amp=y, count=n, mode='fast', on=True)
+        return [
+            ('calibration', cirq.Circuit((cirq.X(q0) ** x).with_tags(CalibrationTag('token_7')))),
+            ('physical_z', cirq.Circuit((cirq.Z(q0) ** x).with_tags(cg.PhysicalZTag()))),
+            ('physical_z+calibration', cirq.Circuit((cirq.Z(q0) ** x).with_tags(cg.PhysicalZTag(), CalibrationTag('t2')))),
+            ('internal_tag', cirq.Circuit((cirq.X(q0) ** x).with_tags(itag))),
+            ('dynamical_decoupling', cirq.Circuit(cirq.I(q0).with_tags(DynamicalDecouplingTag('X')), (cirq.Y(q1) ** x).with_tags(DynamicalDecouplingTag('XY4')))),
+            ('compress_duration', cirq.Circuit((cirq.X(q0) ** x).with_tags(cg.CompressDurationTag()))),
+            ('raw_values', cirq.Circuit((cirq.X(q0) ** x).with_tags('note', 7, y))),
+            ('fsim_model+calibration', cirq.Circuit(cirq.FSimGate(x, 0.5)(q0, q1).with_tags(cg.FSimViaModelTag(), CalibrationTag('c')))),
+            ('two_pulse_fsim', cirq.Circuit(cirq.FSimGate(0.25, x)(q0, q1).with_tags(cg.TwoPulseFSimTag()))),
+            ('three_tags', cirq.Circuit((cirq.Y(q0) ** x).with_tags(CalibrationTag('a'), itag, 'z'))),
+            ('moment_tags', cirq.Circuit(cirq.Moment([cirq.X(q0) ** x, cirq.Z(q1)], tags=('mtag', itag)))),
+            ('circuit_tags', cirq.Circuit([cirq.X(q0) ** x, cirq.CZ(q0, q1)], tags=[CalibrationTag('whole'), 'ctag'])),
+            ('same_tag_twice', cirq.Circuit((cirq.X(q0) ** x).with_tags(itag), (cirq.Y(q1) ** 0.5).with_tags(itag), (cirq.X(q0) ** 0.25).with_tags(CalibrationTag('k'), itag))),
+        ]
+
+    N_TAGS = 13
+
+    def body_tags(cx, wrong=False):
+        y = cx.real('y', -BOX, BOX)
+        n = sym_int(cx, 'n', -F32_INT, F32_INT)
+        menu = tag_menu(cx, y, n)
+        assert len(menu) == N_TAGS
+        name, c = menu[cx.choose('tags', N_TAGS)]
+        back = roundtrip(cx, c)
+        k = Cmp(cx, TOL)
+        k.circuit(back, c, name)
+        k.finish(f'tags {name}', wrong)
+
+    obs.append(
+        Obligation(
+            'msgs.circuit.tags',
+            body_tags,
+            twin=lambda cx: body_tags(cx, wrong=True),
+            points=[{'choose:tags': i, 'x': 0.3 * i - 2, 'y': 0.1 + 0.25 * i, 'n': 3 - 1000 * i} for i in range(N_TAGS)],
+            opts={'weight': 4},
+            desc='tags on ordinary operations, moments and circuits (CalibrationTag, PhysicalZTag, FSimViaModelTag / TwoPulseFSimTag, CompressDurationTag, DynamicalDecouplingTag, InternalTag with a SYMBOLIC real, a SYMBOLIC integer, string and bool arguments, raw string / int / SYMBOLIC real tags, the same tag object on several operations): same tags in the same order on the same operations, gate parameters SYMBOLIC',
+        )
+    )
+
+    # ---- classical controls ------------------------------------------------------------------------------------------
+    CTRL = ['key', 'key_path', 'bitmask', 'bitmask_nomask', 'sympy', 'key+bitmask', 'two_keys', 'key+sympy', 'tag_outside', 'three']
+
+    def body_controls(cx, wrong=False):
+        q0, q1, q2 = qubits_of('grid', 3)
+        kind = CTRL[cx.choose('controls', len(CTRL))]
+        x = cx.real('x', -BOX, BOX)
+        i1 = sym_int(cx, 'i1', -(1 << 31), (1 << 31) - 1)
+        i2 = sym_int(cx, 'i2', -(1 << 31), (1 << 31) - 1)
+        t = sym_int(cx, 'target', 0, F32_INT)
+        m = sym_int(cx, 'bitmask', 0, F32_INT)
+        km, kb = cirq.MeasurementKey('m'), cirq.MeasurementKey('b')
+        K1 = cirq.KeyCondition(km, index=i1)
+        K2 = cirq.KeyCondition(kb, index=i2)
+        KP = cirq.KeyCondition(cirq.MeasurementKey('m', path=('outer', '0')), index=i1)
+        B = cirq.BitMaskKeyCondition(km, index=i2, target_value=t, equal_target=True, bitmask=m)
+        BN = cirq.BitMaskKeyCondition(kb, index=i1, target_value=t, equal_target=False, bitmask=None)
+        S = cirq.SympyCondition(sympy.Symbol('m') > sympy.Symbol('b'))
+        conds = {'key': [K1], 'key_path': [KP], 'bitmask': [B], 'bitmask_nomask': [BN], 'sympy': [S], 'key+bitmask': [K1, B], 'two_keys': [K1, K2], 'key+sympy': [K2, S], 'tag_outside': [K1], 'three': [K1, BN, S]}[kind]
+        op = (cirq.X(q2) ** x).with_classical_controls(*conds)
+        if kind == 'tag_outside':
+            op = op.with_tags(CalibrationTag('ctl'))
+        c = cirq.Circuit(cirq.measure(q0, key='m'), cirq.measure(q1, key='b'), op)
+        back = roundtrip(cx, c)
+        k = Cmp(cx, TOL)
+        k.circuit(back, c, kind)
+        k.finish(f'classical control {kind}', wrong)
+
+    obs.append(
+        Obligation(
+            'msgs.circuit.classical_control',
+            body_controls,
+            twin=lambda cx: body_controls(cx, wrong=True),
+            points=[{'choose:controls': i % len(CTRL), 'x': 0.4 * i - 1.5, 'i1': [-1, 0, 2, -3][i % 4], 'i2': [0, -1, -2, 5][i % 4], 'target': i, 'bitmask': 3 * i} for i in range(len(CTRL))],
+            opts={'weight': 4},
+            desc=f'classically controlled operations ({CTRL}): KeyCondition with SYMBOLIC int32 index (also on a key with a path), BitMaskKeyCondition with SYMBOLIC index / target / bitmask, SympyCondition, one to three controls, tag outside the control wrapper; the controls are compared as a SET, field by field; gate exponent SYMBOLIC',
+        )
+    )
+
+    # ---- CircuitOperation ----------------------------------------------------------------------------------------------
+    COP = ['plain', 'qubit_map', 'key_map', 'params_number', 'params_symbol', 'rep_ids', 'no_rep_ids', 'repeat_until', 'controlled', 'nested', 'two_ops_one_circuit']
+
+    def body_circuit_op(cx, kind, wrong=False):
+        q0, q1, q2 = qubits_of('grid', 3)
+        x = cx.real('x', -BOX, BOX)
+        y = cx.real('y', -BOX, BOX)
+        unitary_sub = cirq.FrozenCircuit(cirq.X(q0) ** x, cirq.CZ(q0, q1) ** a)
+        measured_sub = cirq.FrozenCircuit(cirq.X(q0) ** x, cirq.measure(q0, key='k'))
+        if kind in ('plain', 'qubit_map', 'params_number', 'params_symbol', 'nested', 'two_ops_one_circuit'):
+            reps = sym_int(cx, 'reps', -3, 3)
+        elif kind == 'controlled':
+            reps = sym_int(cx, 'reps', -3, 3)
+        elif kind in ('key_map', 'no_rep_ids'):
+            reps = sym_int(cx, 'reps', 0, 3)
+        else:
+            reps = None
+        pre = []
+        if kind == 'plain':
+            op = cirq.CircuitOperation(unitary_sub, repetitions=reps)
+        elif kind == 'qubit_map':
+            op = cirq.CircuitOperation(unitary_sub, repetitions=reps, qubit_map={q0: q2, q1: q0})
+        elif kind == 'key_map':
+            op = cirq.CircuitOperation(measured_sub, repetitions=reps, measurement_key_map={'k': 'outer_k'}, use_repetition_ids=False)
+        elif kind == 'params_number':
+            op = cirq.CircuitOperation(unitary_sub, repetitions=reps, param_resolver={'a': 0.5, b: 0.1})
+        elif kind == 'params_symbol':
+            op = cirq.CircuitOperation(unitary_sub, repetitions=reps, param_resolver={a: b, 'c': sympy.Symbol('d')})
+        elif kind == 'rep_ids':
+            nrep = 1 + cx.choose('n_ids', 3)
+            op = cirq.CircuitOperation(measured_sub, repetitions=nrep, repetition_ids=[f'r{i}' for i in range(nrep)], use_repetition_ids=True)
+        elif kind == 'no_rep_ids':
+            op = cirq.CircuitOperation(measured_sub, repetitions=reps, use_repetition_ids=[True, False][cx.choose('use_ids', 2)])
+        elif kind == 'repeat_until':
+            i1 = sym_int(cx, 'i1', -(1 << 31), (1 << 31) - 1)
+            op = cirq.CircuitOperation(measured_sub, use_repetition_ids=False, repeat_until=cirq.KeyCondition(cirq.MeasurementKey('k'), index=i1))
+        elif kind == 'controlled':
+            i1 = sym_int(cx, 'i1', -(1 << 31), (1 << 31) - 1)
+            pre = [cirq.measure(q2, key='m')]
+            op = cirq.CircuitOperation(unitary_sub, repetitions=reps, use_repetition_ids=False).with_classical_controls(cirq.KeyCondition(cirq.MeasurementKey('m'), index=i1))
+        elif kind == 'nested':
+            inner = cirq.CircuitOperation(unitary_sub, repetitions=reps, qubit_map={q0: q1, q1: q0})
+            op = cirq.CircuitOperation(cirq.FrozenCircuit(inner, cirq.Y(q2) ** y), repetitions=2, param_resolver={'a': 0.25})
+        else:
+            op = None
+        if kind == 'two_ops_one_circuit':
+            # the same sub-circuit constant referenced by two operations with different mappings
+            c = cirq.Circuit(cirq.CircuitOperation(unitary_sub, repetitions=reps), cirq.CircuitOperation(unitary_sub, repetitions=2, qubit_map={q0: q2}), cirq.Y(q2) ** y)
+        else:
+            c = cirq.Circuit(pre + [op, cirq.Y(q2) ** y] if kind not in ('qubit_map', 'nested') else [op])
+        back = roundtrip(cx, c)
+        k = Cmp(cx, TOL)
+        k.circuit(back, c, kind)
+        k.finish(f'CircuitOperation {kind}', wrong)
+
+    for ki, kind in enumerate(COP):
+        obs.append(
+            Obligation(
+                f'msgs.circuit.circuit_op[{kind}]',
+                (lambda cx, kind=kind: body_circuit_op(cx, kind)),
+                twin=(lambda cx, kind=kind: body_circuit_op(cx, kind, wrong=True)),
+                points=[{'x': 0.3 * i - 1.2 + 0.1 * ki, 'y': 2.5 - 0.4 * i, 'reps': [2, 0, 1, 3][i % 4], 'i1': [-1, 0, -2, 3][i % 4], 'choose:n_ids': i % 3, 'choose:use_ids': i % 2, 'sym_a': 0.4, 'sym_b': 0.6} for i in range(4)],
+                opts={'weight': 4},
+                desc=f'CircuitOperation form {kind} (of {COP}): repetitions SYMBOLIC in [-3,3] (unitary body) / [0,3] (measuring body), qubit / measurement-key / parameter maps (numbers and symbols), explicit repetition ids, use_repetition_ids, repeat_until and classical control with SYMBOLIC index, nesting, one sub-circuit constant shared by two operations; sub-circuit compared recursively with SYMBOLIC exponents',
+            )
+        )
+
+    # ---- shared constants -------------------------------------------------------------------------------------------------
+    SHARE = ['same_qubit_3', 'two_qubits', 'tag_vs_no_tag', 'moments_repeat', 'near_equal_gates', 'mixed_families']
+
+    def body_sharing(cx, kind, wrong=False):
+        q0, q1, q2 = qubits_of(QUBIT_KINDS[cx.choose('qubits', 2)], 3)
+        x1, x2, x3 = cx.real('x1', -BOX, BOX), cx.real('x2', -BOX, BOX), cx.real('x3', -BOX, BOX)
+        if kind == 'same_qubit_3':
+            c = cirq.Circuit(cirq.X(q0) ** x1, cirq.X(q0) ** x2, cirq.X(q0) ** x3)
+        elif kind == 'two_qubits':
+            c = cirq.Circuit(cirq.Moment(cirq.X(q0) ** x1, cirq.X(q1) ** x2), cirq.Moment(cirq.X(q1) ** x1, cirq.X(q0) ** x3))
+        elif kind == 'tag_vs_no_tag':
+            c = cirq.Circuit(cirq.Z(q0) ** x1, (cirq.Z(q0) ** x2).with_tags(cg.PhysicalZTag()), (cirq.Z(q0) ** x3).with_tags(CalibrationTag('t')))
+        elif kind == 'moments_repeat':
+            c = cirq.Circuit(cirq.Moment(cirq.X(q0) ** x1, cirq.Y(q1) ** x2), cirq.Moment(cirq.X(q0) ** x3, cirq.Y(q1) ** x2), cirq.Moment(cirq.X(q0) ** x1, cirq.Y(q1) ** x2))
+        elif kind == 'near_equal_gates':
+            # same exponent in different gate families / with a global shift: must stay different operations
+            c = cirq.Circuit(cirq.X(q0) ** x1, cirq.Y(q0) ** x1, cirq.XPowGate(exponent=x1, global_shift=-0.5)(q0), cirq.X(q1) ** x1, cirq.PhasedXPowGate(exponent=x1, phase_exponent=x2)(q0), cirq.PhasedXPowGate(exponent=x2, phase_exponent=x1)(q0))
+        else:
+            c = cirq.Circuit(cirq.CZ(q0, q1) ** x1, cirq.CZ(q1, q0) ** x1, cirq.ISWAP(q0, q1) ** x1, cirq.FSimGate(x1, x2)(q0, q1), cirq.FSimGate(x2, x1)(q0, q1), cirq.CZ(q1, q2) ** x3)
+        msg = SER.serialize(c)
+        back = SER.deserialize(wire(cx, msg))
+        k = Cmp(cx, TOL)
+        k.circuit(back, c, kind)
+        k.finish(f'sharing {kind}', wrong)
+
+    for kind in SHARE:
+        obs.append(
+            Obligation(
+                f'msgs.circuit.shared_constants[{kind}]',
+                (lambda cx, kind=kind: body_sharing(cx, kind)),
+                twin=(lambda cx, kind=kind: body_sharing(cx, kind, wrong=True)),
+                points=[{'choose:qubits': i % 2, 'x1': v1, 'x2': v2, 'x3': v3} for i, (v1, v2, v3) in enumerate(((0.5, 0.5, 0.5), (0.5, 0.25, 0.5), (1.0, 1.0, 2.0), (0.1, 0.1, 0.3), (0.5, 0.5000001, 0.5), (0.0, 0.0, 0.0), (-1.0, 1.0, -1.0), (2.0, 0.0, 2.0), (0.25, 0.25, 0.5)))],
+                opts={'weight': 8, 'max_paths': 60000},
+                desc=f'circuit layout {kind} (of {SHARE}): 3-6 operations with SYMBOLIC exponents x1, x2, x3 that may coincide (the solver explores x1=x2, x1=x3, ... also modulo the gate period, as the constant-table lookups compare operations): operations that are equal share one constant, operations that differ in exponent, gate family, qubit order, tags or global shift do not; every operation comes back at its own place with its own exponent (per-operation comparison with the original, exponents modulo the period of the gate)',
+            )
+        )
+
+    # ---- multi-program and circuit-function forms ---------------------------------------------------------------------------
+    def body_multi(cx, wrong=False):
+        q0, q1, _ = qubits_of('grid', 3)
+        form = cx.choose('form', 2)  # 0: sequence, 1: mapping
+        x1, x2 = cx.real('x1', -BOX, BOX), cx.real('x2', -BOX, BOX)
+        c1 = cirq.Circuit(cirq.X(q0) ** x1, cirq.CZ(q0, q1))
+        c2 = cirq.Circuit(cirq.X(q0) ** x2, cirq.CZ(q0, q1), cirq.measure(q0, key='m'))
+        c3 = cirq.FrozenCircuit(cirq.X(q0) ** x1)
+        progs = [c1, c2, c3] if form == 0 else {'first': c1, 'second': c2, 'k3': c3}
+        msg = wire(cx, SER.serialize_multi_program(progs))
+        out = SER.deserialize_multi_program(msg)
+        k = Cmp(cx, TOL)
+        if k.cond(len(out) == 3, f'{len(out)} circuits'):
+            for (key, args, circ), (wkey, wc) in zip(out, zip(['', '', ''] if form == 0 else ['first', 'second', 'k3'], [c1, c2, c3])):
+                k.cond(key == wkey and tuple(args) == (), f'key {key!r} args {args!r}')
+                k.circuit(circ, wc, f'program {wkey!r}')
+        k.finish('multi program', wrong)
+
+    obs.append(
+        Obligation(
+            'msgs.circuit.multi_program',
+            body_multi,
+            twin=lambda cx: body_multi(cx, wrong=True),
+            points=[{'choose:form': i % 2, 'x1': v1, 'x2': v2} for i, (v1, v2) in enumerate(((0.5, 0.5), (0.25, 1.5), (0.0, 1.0), (-2.0, -2.0)))],
+            opts={'weight': 3},
+            desc='serialize_multi_program / deserialize_multi_program on a sequence and on a mapping of three circuits sharing constants (SYMBOLIC exponents that may coincide): keys, empty args and each circuit as the original',
+        )
+    )
+
+    def body_function(cx, form, wrong=False):
+        q0, q1, _ = qubits_of('grid', 3)
+        v1, v2 = cx.real('v1', -BOX, BOX), cx.real('v2', -BOX, BOX)
+        w = cx.real('w', -BOX, BOX)
+        n = cx.int('n', -int(BOX), int(BOX))
+
+        def fn_circuit(theta):
+            return cirq.Circuit(cirq.X(q0) ** theta, cirq.CZ(q0, q1))
+
+        def fn_map(theta, other):
+            return {'main': cirq.Circuit(cirq.X(q0) ** theta), 'aux': cirq.Circuit(cirq.Y(q1) ** other, cirq.X(q0) ** theta)}
+
+        def fn_kw(**kw):
+            return cirq.Circuit(cirq.Z(q0) ** kw['theta'], cirq.Y(q1) ** kw['other'])
+
+        sweep = cirq.Zip(cirq.Points('theta', [v1, v2]), cirq.Points('other', [w, n]))
+        fn = [fn_circuit, fn_map, fn_kw][form]
+        msg = wire(cx, SER.serialize_circuit_function(fn, sweep))
+        out = SER.deserialize_multi_program(msg)
+        # documented: the function is unrolled for each combination of sweep parameters; args hold the parameters
+        want = []
+        for theta, other in ((v1, w), (v2, n)):
+            if form == 0:
+                want.append(('', theta, other, fn_circuit(theta)))
+            elif form == 1:
+                for key, circ in fn_map(theta, other).items():
+                    want.append((key, theta, other, circ))
+            else:
+                want.append(('', theta, other, fn_kw(theta=theta, other=other)))
+        k = Cmp(cx, TOL)
+        if k.cond(len(out) == len(want), f'{len(out)} keyed circuits instead of {len(want)}'):
+            for (key, args, circ), (wkey, theta, other, wc) in zip(out, want):
+                k.cond(key == wkey, f'key {key!r} vs {wkey!r}')
+                d = dict(args)
+                if k.cond(sorted(d) == ['other', 'theta'], f'args {sorted(d)}'):
+                    k.num(d['theta'], theta, 'arg theta')
+                    k.num(d['other'], other, 'arg other')
+                k.circuit(circ, wc, f'unrolled {wkey!r}')
+        k.finish('circuit function', wrong)
+
+    for form, fname in enumerate(['circuit', 'mapping', 'kwargs']):
+        obs.append(
+            Obligation(
+                f'msgs.circuit.function[{fname}]',
+                (lambda cx, form=form: body_function(cx, form)),
+                twin=(lambda cx, form=form: body_function(cx, form, wrong=True)),
+                points=[{'v1': 0.25 * i, 'v2': 1.0 - 0.5 * i, 'w': 0.1 * i - 0.3, 'n': i - 2} for i in range(5)],
+                opts={'weight': 6},
+                desc=f'serialize_circuit_function (function returning a {fname}) over a two-point sweep of two parameters with SYMBOLIC values (reals and an integer in [-4,4]): one keyed circuit per sweep point and returned key, args = the point\'s parameters, circuit = the function\'s result with SYMBOLIC exponents',
+            )
+        )
+
+    # ==================================================================================================
+    # findings (defects of the unchanged tree; one obligation per finding, restricted to the failing family)
+    # ==================================================================================================
+    def body_f_cop_tags(cx, wrong=False):
+        q0, q1, _ = qubits_of('grid', 3)
+        x = cx.real('x', -BOX, BOX)
+        tagset = [('hello',), (CalibrationTag('t'),), ('a', cg.InternalTag('T', 'p', v=1.5))][cx.choose('tags', 3)]
+        op = cirq.CircuitOperation(cirq.FrozenCircuit(cirq.X(q0) ** x, cirq.CZ(q0, q1))).with_tags(*tagset)
+        c = cirq.Circuit(op)
+        back = roundtrip(cx, c)
+        k = Cmp(cx, TOL)
+        k.circuit(back, c, 'tagged CircuitOperation')
+        k.finish('tagged CircuitOperation', wrong)
+
+    obs.append(
+        Obligation(
+            'msgs.finding.circuit_op_tags',
+            body_f_cop_tags,
+            twin=lambda cx: body_f_cop_tags(cx, wrong=True),
+            points=[],
+            desc='FINDING: tags attached to a CircuitOperation are dropped by CircuitSerializer.serialize (it serializes op.untagged and never writes op.tags)',
+        )
+    )
+
+    def body_f_confusion(cx, wrong=False):
+        q0, q1, _ = qubits_of('grid', 3)
+        which = cx.choose('map', 2)
+        cm = [{(0,): np.array([[0.9, 0.1], [0.2, 0.8]])}, {(0, 1): np.array([[0.7, 0.1, 0.1, 0.1], [0, 1, 0, 0], [0, 0, 1, 0], [0, 0, 0, 1.0]])}][which]
+        c = cirq.Circuit(cirq.measure(q0, q1, key='m', confusion_map=cm))
+        back = roundtrip(cx, c)
+        k = Cmp(cx, TOL)
+        k.circuit(back, c, 'measurement with confusion map')
+        if wrong:
+            k.cond(len(back) == 2, 'twin')
+        k.finish('measurement with confusion map')
+
+    obs.append(
+        Obligation(
+            'msgs.finding.measurement_confusion_map',
+            body_f_confusion,
+            twin=lambda cx: body_f_confusion(cx, wrong=True),
+            points=[],
+            desc='FINDING: the confusion_map of a MeasurementGate is silently dropped by the program format (serialize accepts the gate, the deserialized gate has no confusion map)',
+        )
+    )
+
+    def body_f_key_path(cx, wrong=False):
+        q0, _, _ = qubits_of('grid', 3)
+        path = [('a',), ('outer', '1')][cx.choose('path', 2)]
+        c = cirq.Circuit(cirq.measure(q0, key=cirq.MeasurementKey('m', path=path)))
+        back = roundtrip(cx, c)
+        k = Cmp(cx, TOL)
+        k.circuit(back, c, 'measurement key with a path')
+        if wrong:
+            k.cond(len(back) == 2, 'twin')
+        k.finish('measurement key with a path')
+
+    obs.append(
+        Obligation(
+            'msgs.finding.measurement_key_path',
+            body_f_key_path,
+            twin=None,
+            points=[],
+            desc='FINDING: a measurement whose key has a path (e.g. after unrolling a sub-circuit) is serialized as the string "path:name" and deserialize raises ValueError (Invalid key name); no twin: every path of this obligation ends in that exception',
+        )
+    )
+
+    def body_f_int_arg(cx, wrong=False):
+        n = cx.int('n', -(1 << 40), 1 << 40)
+        back = A.arg_from_proto(wire(cx, A.arg_to_proto(n)), required_arg_name='n')
+        cx.check(back == (n + 1 if wrong else n), 'integer argument returned exactly')
+
+    obs.append(
+        Obligation(
+            'msgs.finding.int_arg_beyond_24_bits',
+            body_f_int_arg,
+            twin=lambda cx: body_f_int_arg(cx, wrong=True),
+            points=[{'n': 5}],
+            desc='FINDING: arg_to_proto writes a Python int into the float32 field float_value, so an integer argument with more than 24 significant bits (InternalGate / InternalTag / raw tag arguments) comes back rounded, e.g. 16777217 -> 16777216',
+        )
+    )
+
+    def body_f_tag_order(cx, wrong=False):
+        q0, q1, _ = qubits_of('grid', 3)
+        which = cx.choose('case', 3)
+        op = [
+            cirq.Z(q0).with_tags(CalibrationTag('x'), cg.PhysicalZTag()),
+            cirq.FSimGate(0.5, 0.25)(q0, q1).with_tags(CalibrationTag('x'), cg.FSimViaModelTag()),
+            cirq.FSimGate(0.5, 0.25)(q0, q1).with_tags('first', cg.TwoPulseFSimTag()),
+        ][which]
+        c = cirq.Circuit(op)
+        back = roundtrip(cx, c)
+        k = Cmp(cx, TOL)
+        k.circuit(back, c, 'tag order')
+        if wrong:
+            k.cond(len(back) == 2, 'twin')
+        k.finish('tag order')
+
+    obs.append(
+        Obligation(
+            'msgs.finding.tag_order',
+            body_f_tag_order,
+            twin=lambda cx: body_f_tag_order(cx, wrong=True),
+            points=[],
+            desc='FINDING (equality only): PhysicalZTag / FSimViaModelTag / TwoPulseFSimTag are restored from a gate flag BEFORE the other tags, so an operation that carries one of them after another tag comes back with its tags reordered and compares unequal to the original',
+        )
+    )
+
+    def body_f_tuple_arg(cx, wrong=False):
+        q0, _, _ = qubits_of('grid', 3)
+        which = cx.choose('case', 2)
+        g = [cg.InternalGate('G', 'm', 1, t=(1, 2)), cg.InternalGate('G', 'm', 1, t=(1.5, 2.0))][which]
+        c = cirq.Circuit(g(q0))
+        back = roundtrip(cx, c)
+        k = Cmp(cx, TOL)
+        k.circuit(back, c, 'InternalGate tuple argument')
+        if wrong:
+            k.cond(len(back) == 2, 'twin')
+        k.finish('InternalGate tuple argument')
+
+    obs.append(
+        Obligation(
+            'msgs.finding.internal_gate_tuple_arg',
+            body_f_tuple_arg,
+            twin=lambda cx: body_f_tuple_arg(cx, wrong=True),
+            points=[],
+            desc='FINDING (type only): a tuple of numbers given as InternalGate argument is written as RepeatedInt64 / RepeatedDouble and comes back as a list, so the gate compares unequal to the original',
+        )
+    )
+
+    def body_f_module_none(cx, wrong=False):
+        q0, _, _ = qubits_of('grid', 3)
+        c = cirq.Circuit(cg.InternalGate('G', None, 1)(q0))
+        back = roundtrip(cx, c)
+        g = list(back.all_operations())[0].gate
+        cx.check((g.gate_module is None) != wrong, 'InternalGate(gate_module=None) keeps gate_module None')
+
+    obs.append(
+        Obligation(
+            'msgs.finding.internal_gate_module_none',
+            body_f_module_none,
+            twin=lambda cx: body_f_module_none(cx, wrong=True),
+            points=[],
+            desc='FINDING (equality only): InternalGate(gate_module=None), the documented default, comes back with gate_module="" and compares unequal to the original',
         )
     )
 
